@@ -34,7 +34,7 @@ const FILE_NAMES: &[&str] = &[
 ];
 const TYP_NAMES: &[&str] = &["a.typ", "b.typ", "main.typ", "c.typ", "lib.typ", "a.b.typ", "z.typ", "sp ace.typ", "A.typ", "MAIN.typ"];
 const DIR_NAMES: &[&str] = &[
-    "sub", "chapters", "nested", "a b", ".git", ".cache", "x.typ", "\u{fc}d", "d1", "d2", ".hidden", "typ", "d\u{f7fe}", ".\u{f7ff}x",
+    "sub", "chapters", "nested", "a b", ".git", ".cache", "x.typ", "\u{fc}d", "d1", "d2", ".hidden", "typ", "d\u{f7fe}", ".\u{f7ff}x", "~", "$TMP", "-d",
 ];
 const TOP_NAMES: &[&str] = &["proj", ".proj", "my proj", "src", "p.typ", "..proj", "docs"];
 
